@@ -128,6 +128,8 @@ def gen_pool(rng, profile, n, huge=False):
             for _ in range(depth):
                 if profile == "long-stems" and rng.random() < 0.6:
                     st.append(long_stem(rng))
+                    if rng.random() < 0.25:
+                        push(b"".join(st))  # ... also when more stems follow
                 elif adv and rng.random() < 0.4:
                     st.append(rng.choice(_ADV_PATHS))
                 else:
@@ -137,6 +139,8 @@ def gen_pool(rng, profile, n, huge=False):
             if profile == "long-stems" and rng.random() < 0.15:
                 # long host stem
                 st = [st[0]] + [long_stem(rng, b"h:")] + st[1:]
+                if rng.random() < 0.5:
+                    push(b"".join(st[:2]))  # an LRU that ends on the long stem itself
             if profile == "long-stems" and rng.random() < 0.08:
                 # the very first stem is long (the root node of the trie is read by address)
                 st = [long_stem(rng, b"s:")] + st[1 : rng.randint(1, len(st))]
